@@ -521,11 +521,47 @@ package shwap
 // the root and every structural check are verified).
 //@ pure func rowBoundTo(r Row, root []byte, idx int) bool
 
+// (call-site view of verifyInclusion; the body view below proves what is this function's own: the tree is
+// built for row idx and half the row's width, over *all* the shares of the completed row in order; the
+// root compared is the committed root of row idx; and the row that is kept - what Shares() hands out
+// afterwards - is exactly the row that was hashed, whichever side(s) the response carried.)
+//@ extern (*github.com/celestiaorg/celestia-node/share/shwap.Row).verifyInclusion
+//@   requires r != nil && 0 <= idx && idx < len(roots.RowRoots)
+//@   modifies r
+//@   ensures err == nil ==> rowBoundTo(deref(r), roots.RowRoots[idx], idx)
+//@   ensures err == nil ==> r.side == Both && len(r.shares) == (old(r.side) == Both ? old(len(r.shares)) : 2 * old(len(r.shares)))
+
 //@ func (*Row).verifyInclusion
 //@   property C01
-//@   trusted
+//@   modifies r
+//@   ensures err == nil ==> r.side == Both && len(r.shares) == (old(r.side) == Both ? old(len(r.shares)) : 2 * old(len(r.shares)))
 //@   requires r != nil && 0 <= idx && idx < len(roots.RowRoots)
-//@   ensures err == nil ==> rowBoundTo(deref(r), roots.RowRoots[idx], idx)
+//@   callpre wrapper.NewErasuredNamespacedMerkleTree: $arg0 == uint64(len(shrs) / 2) && $arg1 == uint(idx)
+//@   callpre ErasuredNamespacedMerkleTree).Push: 0 <= rangeindex && rangeindex < len(shrs) && $arg1 == shrs[rangeindex].data
+//@   callpre bytes.Equal: ($arg0 == roots.RowRoots[idx] && $arg1 == root) || ($arg1 == roots.RowRoots[idx] && $arg0 == root)
+//@   checks err == nil ==> r.shares == shrs && r.side == Both
+//@   loop 1: invariant -1 <= rangeindex && rangeindex < len(shrs)
+//@   loop 1: backedge rangeindex == head(rangeindex) + 1
+
+// Completing a half row: the half is placed at its own side (left: first half, right: second half) of a
+// row of twice its length, the codec fills the other side, and the result replaces the half; a row that
+// already holds both sides is handed out as it is.
+// (A-RS: decoding a row returns a row of the same length)
+//@ extern (*github.com/celestiaorg/rsmt2d.LeoRSCodec).Decode
+//@   ensures err == nil ==> len(result0) == len(data)
+//@ extern github.com/celestiaorg/go-square/v4/share.FromBytes
+//@   ensures err == nil ==> len(result0) == len(bytes)
+//@ func (*Row).Shares
+//@   property C01
+//@   modifies r
+//@   requires r != nil
+//@   ensures err == nil ==> result0 == r.shares && r.side == Both
+//@   ensures err == nil ==> len(r.shares) == (old(r.side) == Both ? old(len(r.shares)) : 2 * old(len(r.shares)))
+//@   ensures old(r.side) == Both ==> err == nil && r.shares == old(r.shares)
+//@   callpre share.ToBytes: $arg0 == shares
+//@   loop 1: invariant -1 <= rangeindex && rangeindex < len(r.shares) && len(shares) == 2 * len(r.shares) && offset == len(r.shares) * int(r.side) && isFresh(shares) && r.shares == old(r.shares) && r.side == old(r.side)
+//@   loop 1: invariant forall j int :: 0 <= j && j <= rangeindex ==> shares[j + offset] == r.shares[j]
+//@   checks err == nil && old(r.side) != Both ==> forall j int :: 0 <= j && j < len(old(r.shares)) ==> shares[j + len(old(r.shares)) * int(old(r.side))] == old(r.shares)[j]
 
 //@ func (Row).IsEmpty
 //@   property C10
@@ -534,9 +570,10 @@ package shwap
 //@ func (*Row).Verify
 //@   property C01 C10
 //@   effect $RowVerified := err == nil
+//@   modifies r
 //@   requires r != nil && 0 <= idx && idx < len(roots.RowRoots)
-//@   ensures err == nil ==> len(r.shares) != 0 && (r.side == Left || r.side == Right || r.side == Both)
-//@   ensures err == nil ==> len(r.shares) == (r.side == Both ? len(roots.RowRoots) : len(roots.RowRoots) / 2)
+//@   ensures err == nil ==> len(r.shares) != 0 && r.side == Both && (old(r.side) == Left || old(r.side) == Right || old(r.side) == Both)
+//@   ensures err == nil ==> len(r.shares) == (old(r.side) == Both ? len(roots.RowRoots) : 2 * (len(roots.RowRoots) / 2))
 //@   ensures err == nil ==> rowBoundTo(deref(r), roots.RowRoots[idx], idx)
 
 //@ extern (github.com/celestiaorg/go-square/v4/share.Namespace).Equals
